@@ -172,7 +172,7 @@ fn outcome(s: &str, r: Result<Info, (String, String)>, ctx: &Ctx) -> Outcome {
 
 // The CLEAR context makes every token sequence part of an accepted line (CLEAR ignores its
 // options), so the fixed-point clause applies to all of them, not only to well-formed statements.
-const CONTEXTS: &[(&str, &str)] = &[("10 ", ""), ("10 ?", ""), ("10 A=", ""), ("10 IF ", " THEN 20"), ("", ""), ("10 ?1", ";2"), ("10 CLEAR ", "")];
+const CONTEXTS: &[(&str, &str)] = &[("10 ", ""), ("10 ?", ""), ("10 A=", ""), ("10 IF ", " THEN 20"), ("", ""), ("10 ?1", ";2"), ("10 CLEAR ", ""), ("10 ?", "(1)")];
 
 struct Alphabet {
     name: &'static str,
@@ -187,7 +187,7 @@ const ALPHABETS: &[Alphabet] = &[
     Alphabet { name: "letters", symbols: &["G", "O", "T", "S", "U", "B", " ", "R", "E", "M", "I", "F", "N", "1", "$"], k_quick: 4, k_thorough: 5 },
     Alphabet {
         name: "words",
-        symbols: &["GO", " ", "TO", "SUB", "REM", "IF", "THEN", "ELSE", "FN", "A", "1", "\"", "é", ":", "=", "PRINT", "DATA", "'", "X$", "NOT", "MOD", "-", "1E", "&H", "FOR", "OR", "<", ">"],
+        symbols: &["GO", " ", "TO", "SUB", "REM", "IF", "THEN", "ELSE", "FN", "A", "1", "\"", "é", ":", "=", "PRINT", "DATA", "'", "X$", "NOT", "MOD", "-", "1E", "&H", "FOR", "OR", "<", ">", "OT"],
         k_quick: 3,
         k_thorough: 4,
     },
